@@ -224,7 +224,9 @@ func schemaEdits(x *dspec.Schema) []edit {
 		if plain {
 			cur := sampleString("", &x.V).(string)
 			n := int64(len(cur))
-			es = append(es, edit{"maxLength.narrow", func(b *dspec.Schema) { b.V.MaxLen = i64p(n - 1) }, func(o *dspec.Schema) (interface{}, bool) { return cur, n >= 1 && (o.V.MinLen == nil || *o.V.MinLen <= n-1) }})
+			es = append(es, edit{"maxLength.narrow", func(b *dspec.Schema) { b.V.MaxLen = i64p(n - 1) }, func(o *dspec.Schema) (interface{}, bool) {
+				return cur, n >= 1 && (o.V.MinLen == nil || *o.V.MinLen <= n-1)
+			}})
 			es = append(es, edit{"minLength.narrow", func(b *dspec.Schema) { b.V.MinLen = i64p(n + 1) }, func(o *dspec.Schema) (interface{}, bool) { return cur, o.V.MaxLen == nil || *o.V.MaxLen >= n+1 }})
 			es = append(es, edit{"pattern.add", func(b *dspec.Schema) { b.V.Pattern = "^\\d+$" }, func(o *dspec.Schema) (interface{}, bool) { return cur, n > 0 }})
 			es = append(es, edit{"enum.add-constraint", func(b *dspec.Schema) { b.V.Enum = []dspec.EnumV{{Kind: 0, S: cur + "z"}} }, func(o *dspec.Schema) (interface{}, bool) { return cur, true }})
